@@ -79,6 +79,41 @@ Proof.
     symmetry. apply N.leb_le. rewrite app_length. lia.
 Qed.
 
+(* the same cut, however the source spells it: `split_at(n)`, `&s[n..]`, `&s[..n]`, `&s[n..s.len()]` with
+   n = `offset.unwrap_or(s.len())` *)
+Lemma found_idx {A} (a b : list A) : opt_unwrap_or (found 0 a b) (len (a ++ b)) = len a.
+Proof.
+  unfold found, len. destruct b as [|y b]; cbn [opt_unwrap_or].
+  - rewrite app_nil_r. reflexivity.
+  - apply N.add_0_l.
+Qed.
+
+Lemma split_at_len_app {A} (a b : list A) : split_at (a ++ b) (len a) = Some (a, b).
+Proof. rewrite <- (found_idx a b). apply split_found. Qed.
+
+Lemma slice_tail_app {A} (a b : list A) : slice (a ++ b) (len a) (len (a ++ b)) = Some b.
+Proof.
+  unfold slice, len. rewrite app_length, Nnat.Nat2N.inj_add.
+  replace (N.of_nat (length a) <=? N.of_nat (length a) + N.of_nat (length b)) with true
+    by (symmetry; apply N.leb_le; lia).
+  rewrite N.leb_refl. cbn [andb].
+  replace (N.of_nat (length a) + N.of_nat (length b) - N.of_nat (length a)) with (N.of_nat (length b)) by lia.
+  rewrite !Nnat.Nat2N.id, skipn_len_app, firstn_all. reflexivity.
+Qed.
+
+Lemma slice_head_app {A} (a b : list A) : slice (a ++ b) 0 (len a) = Some a.
+Proof.
+  unfold slice, len. rewrite app_length, Nnat.Nat2N.inj_add.
+  replace (0 <=? N.of_nat (length a)) with true by (symmetry; apply N.leb_le; lia).
+  replace (N.of_nat (length a) <=? N.of_nat (length a) + N.of_nat (length b)) with true
+    by (symmetry; apply N.leb_le; lia).
+  cbn [andb]. rewrite N.sub_0_r, Nnat.Nat2N.id. cbn [N.to_nat skipn]. rewrite firstn_len_app. reflexivity.
+Qed.
+
+(* every spelling of the cut of `a ++ b` at the position `position` found becomes `Some (a, b)` / `Some b` / `Some a` *)
+Ltac cut_found :=
+  rewrite ?found_idx; rewrite ?split_at_len_app, ?slice_tail_app, ?slice_head_app.
+
 (* the idiom as one step *)
 Lemma position_split {A S R} (f : A -> S -> option (S * bool)) (l : list A) (s : S)
       (K : S -> list A -> list A -> option R) :
@@ -139,6 +174,75 @@ Proof.
   destruct (u8_parser_advance u b) as [u' o]. destruct o; reflexivity.
 Qed.
 
+(* ---- one application of a scan closure: translated = hand model, by cases ---------------- *)
+
+(* The pointwise side condition of `scan_ext`.  Nothing here follows the text of the closure: the translated
+   small functions are replaced by the hand model's (`gs_norm`), then whatever the goal tests is decided, in
+   whatever order and spelling it appears (`x != A && x != B`, `!matches!(x, A | B)`, `!(p || q)`, `!p && !q`,
+   early `return`s, nested `if`s, a `match` on the state): the leftmost ATOM of a test is destructed, so the two
+   sides only have to agree as boolean functions of the atoms.  A bind over an `if` whose branches are both
+   `Some` (`state4 <- (if c then Some a else Some b) ;; k`) reduces once `c` is decided.  A leaf that is not
+   closed by `reflexivity` may be one no input reaches (`ns == Anywhere` and `ns == Utf8` both true): the state
+   variable is then enumerated and the recorded tests evaluated. *)
+Ltac gs_norm :=
+  rewrite ?gs_state_change_eq, ?g_is_printable_bytes_eq, ?g_is_utf8_continuation_eq, ?g_utf8_add_eq.
+
+Ltac atom_of c :=
+  lazymatch c with
+  | negb ?x => atom_of x
+  | andb ?x _ => atom_of x
+  | orb ?x _ => atom_of x
+  | xorb ?x _ => atom_of x
+  | Bool.eqb ?x _ => atom_of x
+  | (if ?x then _ else _) => atom_of x
+  | _ => c
+  end.
+
+Ltac not_bool_const a := lazymatch a with true => fail | false => fail | _ => idtac end.
+
+Ltac is_enum_type T := lazymatch T with state => idtac | action => idtac end.
+
+Ltac step_split1 :=
+  match goal with
+  (* the tests the goal can already see first: they decide which call of `state_change` / `utf8_add` is made *)
+  | |- context [if ?c then _ else _] =>
+      let a := atom_of c in not_bool_const a; destruct a eqn:?
+  | |- context [state_change ?s ?b] => destruct (state_change s b) as [[? ?]|]
+  | |- context [utf8_add ?u ?b] => destruct (utf8_add u b) as [? [|]]
+  | |- context [match ?x with _ => _ end] =>
+      is_var x; let T := type of x in is_enum_type T; destruct x
+  (* a test that is not (or no longer) under an `if`: the boolean a closure answers *)
+  | |- context [negb ?c] => let a := atom_of c in not_bool_const a; destruct a eqn:?
+  | |- context [andb ?c _] => let a := atom_of c in not_bool_const a; destruct a eqn:?
+  | |- context [andb _ ?c] => let a := atom_of c in not_bool_const a; destruct a eqn:?
+  | |- context [orb ?c _] => let a := atom_of c in not_bool_const a; destruct a eqn:?
+  | |- context [orb _ ?c] => let a := atom_of c in not_bool_const a; destruct a eqn:?
+  end.
+
+(* the closure state as the translation has it: a unit, a tuple of the captured `&mut` variables *)
+Ltac open_state :=
+  repeat match goal with
+         | u : unit |- _ => destruct u
+         | p : (_ * _)%type |- _ => destruct p
+         end.
+
+Ltac state_tests_leaf :=
+  repeat match goal with
+         | H : state_eqb ?x _ = _ |- _ => is_var x; destruct x
+         end;
+  repeat match goal with
+         | H : state_eqb _ _ = _ |- _ => vm_compute in H; try discriminate H; clear H
+         end;
+  reflexivity.
+
+Ltac step_norm :=
+  gs_norm; cbv beta iota zeta delta [Imp.is_ascii Strip.is_ascii]; cbn [negb andb orb fst snd].
+
+Ltac step_cases :=
+  open_state;
+  repeat (step_norm; try reflexivity; step_split1);
+  first [reflexivity | state_tests_leaf].
+
 (* ---- next_str -------------------------------------------------------------------------- *)
 
 (* the two closures of next_str, as the hand model reads them *)
@@ -173,25 +277,33 @@ Qed.
 Definition str_result (r : option (option piece * list N * N * state)) : option (list N * state * option (list N)) :=
   match r with Some (p, bs2, _, st) => Some (bs2, st, option_map p_bytes p) | None => None end.
 
+(* `next_str` / `next_bytes`: two scans, each followed by a cut of the slice at the position found.  The script
+   finds the scans in the goal; it does not depend on how the cut is spelled, on the names of the locals, on the
+   order / spelling of the tests inside the closures or on where the final `None` / `Some(printable)` is built. *)
+Ltac head_of t := lazymatch t with ?f _ => head_of f | _ => t end.
+
+Ltac scan_stage l s0 mstep E :=
+  rewrite position_scan;
+  match goal with
+  | |- context [scan ?f l s0] =>
+      tryif constr_eq f mstep then fail
+      else (let h := head_of mstep in rewrite (scan_ext f mstep) by (intros; unfold h; step_cases))
+  end;
+  match goal with
+  | |- context [scan mstep l s0] => destruct (scan mstep l s0) as [[[? ?] ?]|] eqn:E; [|reflexivity]
+  end;
+  open_state; cbv beta iota zeta; cbn [fst snd];
+  rewrite (scan_split _ _ _ _ _ _ E); cut_found; cbv beta iota zeta; cbn [fst snd].
+
 Lemma g_next_str_eq bs off st : g_next_str bs st = str_result (next_str bs off st).
 Proof.
-  unfold g_next_str, next_str. rewrite position_scan, ns_skip_scan.
-  match goal with |- context [scan ?f bs st] => rewrite (scan_ext f ns_skip_step) end.
-  2:{ intros b s. unfold ns_skip_step. rewrite gs_state_change_eq.
-      destruct (state_change s b) as [[ns a]|]; [|reflexivity].
-      rewrite g_is_printable_bytes_eq. destruct (negb (state_eqb ns Anywhere) && negb (state_eqb ns Utf8)); reflexivity. }
-  destruct (scan ns_skip_step bs st) as [[[st1 a1] bs1]|] eqn:E1; [|reflexivity].
-  cbv zeta. cbn [fst snd]. rewrite (scan_split _ _ _ _ _ _ E1), split_found.
-  rewrite position_scan, ns_take_scan.
-  match goal with |- context [scan ?f bs1 tt] => rewrite (scan_ext f (ns_take_step st1)) end.
-  2:{ intros b []. unfold ns_take_step. rewrite gs_state_change_eq.
-      destruct (state_change st1 b) as [[ns a]|]; [|reflexivity].
-      rewrite g_is_printable_bytes_eq, g_is_utf8_continuation_eq.
-      (* `!(p || c)` or `!p && !c` (De Morgan) *)
-      rewrite ?negb_orb. reflexivity. }
-  destruct (scan (ns_take_step st1) bs1 tt) as [[[[] t] bs2]|] eqn:E2; [|reflexivity].
-  cbn [fst snd]. rewrite (scan_split _ _ _ _ _ _ E2), split_found.
-  destruct t; reflexivity.
+  unfold g_next_str, next_str. rewrite ns_skip_scan.
+  scan_stage bs st ns_skip_step E1.
+  rewrite ns_take_scan.
+  match goal with
+  | E1 : scan ns_skip_step _ _ = Some (?st1, _, ?bs1) |- _ => scan_stage bs1 tt (ns_take_step st1) E2
+  end.
+  match goal with |- context [is_empty ?t] => destruct t; reflexivity end.
 Qed.
 
 (* ---- next_bytes ------------------------------------------------------------------------ *)
@@ -252,35 +364,15 @@ Definition bytes_result (r : option (option piece * list N * N * state * u8parse
   : option (list N * state * u8parser * option (list N)) :=
   match r with Some (p, bs2, _, st, u) => Some (bs2, st, u, option_map p_bytes p) | None => None end.
 
-Ltac sc_cases :=
-  rewrite gs_state_change_eq;
-  match goal with |- context [state_change ?s0 ?b0] => destruct (state_change s0 b0) as [[ns a]|]; [|reflexivity] end;
-  rewrite g_is_printable_bytes_eq.
-
 Lemma g_next_bytes_eq bs off st u : g_next_bytes bs st u = bytes_result (next_bytes bs off st u).
 Proof.
-  unfold g_next_bytes, next_bytes. rewrite position_scan, nb_skip_scan.
-  match goal with |- context [scan ?f bs (st, u)] => rewrite (scan_ext f nb_skip_step) end.
-  2:{ intros b [s0 u0]. unfold nb_skip_step. cbv zeta. unfold Imp.is_ascii, Strip.is_ascii.
-      destruct (state_eqb s0 Utf8); cbn [andb]; [destruct (negb (b <? 128)); [reflexivity|]|];
-        sc_cases; destruct (state_eqb ns Anywhere); reflexivity. }
-  destruct (scan nb_skip_step bs (st, u)) as [[[[st1 u1] a1] bs1]|] eqn:E1; [|reflexivity].
-  cbv zeta. cbn [fst snd]. rewrite (scan_split _ _ _ _ _ _ E1), split_found.
-  rewrite position_scan, nb_take_scan.
-  match goal with |- context [scan ?f bs1 (st1, u1)] => rewrite (scan_ext f nb_take_step) end.
-  2:{ intros b [s0 u0]. unfold nb_take_step. unfold Imp.is_ascii, Strip.is_ascii.
-      destruct (state_eqb s0 Utf8); cbn [andb].
-      - destruct (negb (b <? 128)).
-        + rewrite g_utf8_add_eq. destruct (utf8_add u0 b) as [u2 [|]]; reflexivity.
-        + sc_cases. destruct (negb (is_printable_bytes a b)); [reflexivity|].
-          destruct (state_eqb ns Utf8); [|reflexivity].
-          rewrite g_utf8_add_eq. destruct (utf8_add u8_new b) as [u2 d]. reflexivity.
-      - sc_cases. destruct (negb (is_printable_bytes a b)); [reflexivity|].
-        destruct (state_eqb ns Utf8); [|reflexivity].
-        rewrite g_utf8_add_eq. destruct (utf8_add u0 b) as [u2 d]. reflexivity. }
-  destruct (scan nb_take_step bs1 (st1, u1)) as [[[[st2 u2] t] bs2]|] eqn:E2; [|reflexivity].
-  cbn [fst snd]. rewrite (scan_split _ _ _ _ _ _ E2), split_found.
-  destruct t; reflexivity.
+  unfold g_next_bytes, next_bytes. rewrite nb_skip_scan.
+  scan_stage bs (st, u) nb_skip_step E1.
+  rewrite nb_take_scan.
+  match goal with
+  | E1 : scan nb_skip_step _ _ = Some (?s1, _, ?bs1) |- _ => scan_stage bs1 s1 nb_take_step E2
+  end.
+  match goal with |- context [is_empty ?t] => destruct t; reflexivity end.
 Qed.
 
 (* ---- the iterators --------------------------------------------------------------------- *)
